@@ -21,8 +21,14 @@ for l in open(mf):
 p = '/verif/DESIGN.md'
 s = open(p).read()
 names = ', '.join('`%s` (%s)' % (a, ' '.join(ps)) for a, ps in sorted(alarms))
+neutral_txt = 'On the final binary `tools/neutral.sh` reports %d of %d variants silent on all twenty checks; the %d that raise alarms are %s' % (sil, total, len(alarms), names)
+matrix_txt = '`tools/matrix.sh` reports %d of %d seeded changes caught by the check of their own property; the %d others are %s' % (caught, caught + missed, missed, ', '.join(missl))
 s = s.replace('FILL-SILENT', str(sil))
-s = s.replace('FILL-NEUTRAL', 'On the final binary `tools/neutral.sh` reports %d of %d variants silent on all twenty checks; the %d that raise alarms are %s' % (sil, total, len(alarms), names))
-s = s.replace('FILL-MATRIX', '`tools/matrix.sh` reports %d of %d seeded changes caught by the check of their own property; the %d others are %s' % (caught, caught + missed, missed, ', '.join(missl)))
+s = s.replace('FILL-NEUTRAL', neutral_txt)
+s = s.replace('FILL-MATRIX', matrix_txt)
+# re-fill after an earlier fill
+s = re.sub(r'On the final binary `tools/neutral\.sh` reports \d+ of \d+ variants silent on all twenty checks; the \d+ that raise alarms are [^.]*?\)(?=\. `tools/matrix)', neutral_txt, s)
+s = re.sub(r'`tools/matrix\.sh` reports \d+ of \d+ seeded changes caught by the check of their own property; the \d+ others are [^.]*?(?=\. The variants that still raise alarms)', matrix_txt, s)
+s = re.sub(r'the set has \d+ variants, of which \d+ are silent', 'the set has %d variants, of which %d are silent' % (total, sil), s)
 open(p, 'w').write(s)
 print(sil, total, len(alarms), caught, missed)
